@@ -9,8 +9,8 @@ package main
 
 import (
 	"bytes"
-	"io"
 	"fmt"
+	"io"
 	"os"
 	"path/filepath"
 	"sort"
@@ -112,12 +112,13 @@ func scalarTruthy(v interface{}) bool {
 
 // refRender: the documented semantics.  scope holds the items of the enclosing loops, innermost last; idx and n
 // belong to the innermost loop.
-//   variable      the field of the innermost enclosing map item that has it (a list-valued field does not count),
-//                 else the global variable, else the placeholder stays
-//   condition     inside a loop whose items are maps: the field of the innermost map item (absent = false, a list
-//                 counts as true); otherwise the global condition (absent = false)
-//   each          at the top level the global list; inside a loop the list-valued field of the current item;
-//                 anything else renders nothing
+//
+//	variable      the field of the innermost enclosing map item that has it (a list-valued field does not count),
+//	              else the global variable, else the placeholder stays
+//	condition     inside a loop whose items are maps: the field of the innermost map item (absent = false, a list
+//	              counts as true); otherwise the global condition (absent = false)
+//	each          at the top level the global list; inside a loop the list-valued field of the current item;
+//	              anything else renders nothing
 func refRender(ns []*tnode, d *tdata, scope []*titem, idx, n int, b *strings.Builder) {
 	var item *titem
 	if len(scope) > 0 {
